@@ -106,8 +106,26 @@ func (t *tcpTransport) SetEncryption(ctx context.Context, e SessionEncryption) e
 		return err
 	}
 
+	// The handshake only honours the deadline set above: abort it as soon as the context is done
+	stop := make(chan struct{})
+	stopped := make(chan struct{})
+	go func() {
+		defer close(stopped)
+		select {
+		case <-ctx.Done():
+			_ = tlsConn.SetDeadline(time.Now())
+		case <-stop:
+		}
+	}()
+
 	// We convert existing connection to TLS
-	if err := tlsConn.Handshake(); err != nil {
+	err := tlsConn.Handshake()
+	close(stop)
+	<-stopped
+	if err != nil {
+		if ctxErr := ctx.Err(); ctxErr != nil {
+			return fmt.Errorf("tcp transport: tls handshake: %w", ctxErr)
+		}
 		return err
 	}
 
